@@ -41,6 +41,7 @@ pub mod glob {
 //@ include lib/dewey_views.rs
 //@ include lib/pkgname_views.rs
 //@ include lib/pattern_spec.rs
+//@ include lib/brace_expansion.rs
 
 impl DeweyVersion {
 //@ import dewey : impl DeweyVersion fn new
